@@ -2,9 +2,9 @@ package rules
 
 import (
 	"fmt"
-	"os"
 	"go/token"
 	"go/types"
+	"os"
 	"sort"
 	"strings"
 
@@ -202,7 +202,7 @@ var emitAuditedContracts = map[string]struct {
 	span int // effect with the flag true minus base (1 everywhere else)
 	why  string
 }{
-	"(*compiledSequenceExpr).emitGetter": {0, 1, "contract as usual; see emitAuditedPaths for the empty-sequence path"},
+	"(*compiledSequenceExpr).emitGetter":       {0, 1, "contract as usual; see emitAuditedPaths for the empty-sequence path"},
 	"(*compiledSpreadCallArgument).emitGetter": {0, 0, "a spread argument is only emitted between startVariadic and endVariadic: pushSpread moves the iterated values into the open variadic area, so the wanted form nets 0 and is never emitted with putOnStack=false by compiledCallExpr"},
 }
 
@@ -221,7 +221,7 @@ var emitAuditedSummaries = map[string]struct {
 	why string
 }{
 	"(*compiler).compileExpression": {0, "builds the compiledExpr tree for a syntax node; bytecode is emitted later by the emit* methods of the result (nested function bodies are compiled into their own Program)"},
-	"(*compiler).evalConst": {0, "runs the expression in a scratch VM: emits into a throw-away Program, or truncates c.p.code back to savedPc before returning"},
+	"(*compiler).evalConst":         {0, "runs the expression in a scratch VM: emits into a throw-away Program, or truncates c.p.code back to savedPc before returning"},
 }
 
 type effSet struct {
@@ -258,7 +258,7 @@ type emitEval struct {
 	instrI    *types.Interface
 	flagM     map[string]int // compiledExpr method name -> index of the flag among the call's Args (invoke: receiver excluded)
 	ceI       *types.Interface
-	flagged   map[*ssa.Function]int // function -> index into Params of the flag
+	flagged   map[*ssa.Function]int  // function -> index into Params of the flag
 	seed      map[*ssa.Function]bool // implementations of the compiledExpr flag methods (incl. promoted base methods)
 	mayEmit   map[*ssa.Function]bool
 	switcher  map[*ssa.Function]bool // assigns compiler.p or Program.code wholesale
@@ -991,7 +991,9 @@ func (ev *emitEval) solve() int {
 		}
 	}
 	sort.Slice(fns, func(i, j int) bool { return core.FuncName(fns[i]) < core.FuncName(fns[j]) })
-	sig := func(e *effSet) string { return fmt.Sprintf("%s/%d/%d/%v", setStr(e.vals), e.unknown, len(e.joinBad), e.throws) }
+	sig := func(e *effSet) string {
+		return fmt.Sprintf("%s/%d/%d/%v", setStr(e.vals), e.unknown, len(e.joinBad), e.throws)
+	}
 	rounds := 0
 	for rounds < 8 {
 		rounds++
